@@ -5,6 +5,7 @@ import LP.Props.C13PointInt
 import LP.Props.C13Hull
 import LP.Props.C13StatusIff
 import LP.Props.C13CountSat
+import LP.Props.C13PointIntIff
 import LP.Props.C13Obs
 import LP.Props.GenTables
 import LP.Props.C13
@@ -57,3 +58,5 @@ import LP.Props.C13Int
 #print axioms LP.FSet.finite_ints
 #print axioms LP.FSet.C13_countInt_saturated
 #print axioms LP.FSet.C13_set_countInt_saturated
+#print axioms LP.FSet.C13_isPointInt_complete
+#print axioms LP.FSet.C13_isPointInt_iff
